@@ -100,7 +100,7 @@ def execute(run):
     binary = build_driver()
     info = driver_info(binary)
     extra = {'circles': info['circles']}
-    n = 600 if run.tier == 'quick' else 7000
+    n = 2000 if run.tier == 'quick' else 7000
     shards = [{'name': 'pairs-%d' % i, 'n': n} for i in range(16 if run.tier == 'quick' else 32)]
     run.run_shards(binary, shards, extra=extra)
 
